@@ -142,6 +142,19 @@ def replay(cases):
                 bad = carried(res, T)
             elif n and name != "remove" and res.getListAnalyticalFeatures() != ["f"]:
                 bad = "feature table not carried over: %s" % res.getListAnalyticalFeatures()
+            if not bad and n and name != "remove":
+                # the result OWNS its feature table: a feature created afterwards on the result does not appear on the source,
+                # nor the other way round (and the source's features stay readable)
+                try:
+                    if res.size() > 0:
+                        res.createAnalyticalFeature("k", 1.0)
+                    src.createAnalyticalFeature("m", 2.0)
+                    if src.getListAnalyticalFeatures() != ["f", "m"] or [float(v) for v in src.getAnalyticalFeature("f")] != [float(i) for i in range(1, n + 1)]:
+                        bad = "after creating a feature on the RESULT the source lists %s" % src.getListAnalyticalFeatures()
+                    elif res.getListAnalyticalFeatures() != (["f", "k"] if res.size() > 0 else ["f"]):
+                        bad = "after creating a feature on the SOURCE the result lists %s" % res.getListAnalyticalFeatures()
+                except (Exception, SystemExit) as ex:
+                    bad = "creating features on the result / the source afterwards raised %r" % (ex,)
             if bad:
                 sig = name
                 if name == "droplast" and a1 > n:
